@@ -50,7 +50,7 @@ class HistIO(Hist):
         s = self.pick(rng, lambda s: s.net.is_acyclic())
         if s is None:
             return
-        net = s.net
+        net = self.reread(s)
         cenc = self.m['cenc']
         order = observe.storage_order(s.real)
         enc_ok = is_encodable(net)
@@ -478,7 +478,7 @@ class HistIO(Hist):
         s = self.pick(rng, lambda s: self.labels_are_identifiers(s.net))
         if s is None:
             return
-        net = s.net
+        net = self.reread(s)
         st = self.res.stats.probes
         via = weighted_choice(rng, [('string', 4), ('file', 3), ('lines', 1), ('generator', 1)])
         C = self.Circuit
